@@ -86,3 +86,96 @@ theorem loop_features (length : Int) (k : Nat) (f : Fields) (t : List QFeature) 
   exact loop_step length k _ _ 70 _ rest (by decide) ht
 
 end Gts.GenBank
+
+namespace Gts.GenBank
+open Gts.Pars
+
+/-! ### the domain of a record -/
+
+/-- the length `GenBank.String` puts into the LOCUS line -/
+def locusLength (f : Fields) (p : Bytes) : Int := if p.isEmpty then contigLen f else (p.length : Int)
+
+/-- the header part of the domain -/
+def headerOk (f : Fields) : Bool :=
+  regionOk f && noCR f.definition && noEOL (accessionLine f) && noEOL f.version &&
+  f.dblink.all pairOk && distinctKeys f.dblink && listOk f.keywords && noCR (wrapSpace f.species) &&
+  organismOk f.organism && taxonOk f.taxon && f.references.all referenceOk && f.comments.all noCR &&
+  f.extra.all fun e => WritableExtra e.1 e.2 && extraNameOk e.1
+
+/-- **`Writable`**: the decidable domain of the round trip for a record that carries the residues
+`p` (locations aside: `LocRT`).  LOCUS line (`locusOk`, one of the five molecules), header fields
+(`headerOk`), an empty table or a writable one, no CONTIG (then its region is zero) or a
+writable one, printable residues, fewer than 10^9 of them. -/
+def Writable (reg : Registry) (r : Record) (p : Bytes) : Bool :=
+  let f := r.fields
+  locusOk f (locusLength f p) && isMolecule f.molecule && headerOk f &&
+  (match r.table with | [] => true | _ :: _ => tableWritable reg r.table) &&
+  (if f.contigAcc.isEmpty then decide (f.contigHead = 0 ∧ f.contigTail = 0) else contigOk f) &&
+  p.all Origin.isBase && decide (p.length < 10 ^ 9)
+
+theorem headerSecs_ok (f : Fields) (L : Int) (h : headerOk f = true) : ∀ x ∈ headerSecs f, SecOK L x := by
+  simp only [headerOk, Bool.and_eq_true, List.all_eq_true] at h
+  obtain ⟨⟨⟨⟨⟨⟨⟨⟨⟨⟨⟨⟨_, hdef⟩, hacc⟩, hver⟩, hdb⟩, _⟩, hkw⟩, hsp⟩, horg⟩, htax⟩, href⟩, hcom⟩, hext⟩ := h
+  intro x hx
+  simp only [headerSecs, List.mem_append, List.mem_cons, List.mem_map, List.not_mem_nil, or_false] at hx
+  rcases hx with (((((hx | hx | hx) | hx) | (hx | hx)) | hx) | hx) | hx
+  · subst hx; exact secDefinition_ok L _ hdef
+  · subst hx; exact secAccession_ok L _ hacc
+  · subst hx; exact secVersion_ok L _ hver
+  · cases hd : f.dblink with
+    | nil => rw [hd] at hx; simp at hx
+    | cons p ps =>
+      rw [hd] at hx hdb
+      simp at hx; subst hx
+      exact secDblink_ok L p ps hdb
+  · subst hx; exact secKeywords_ok L _ hkw
+  · subst hx; exact secSource_ok L _ _ _ hsp horg htax
+  · obtain ⟨y, hy, rfl⟩ := hx
+    exact secReference_ok L y (href y hy)
+  · obtain ⟨y, hy, rfl⟩ := hx
+    exact secComment_ok L y (hcom y hy)
+  · obtain ⟨e, he, rfl⟩ := hx
+    have := hext e he
+    exact secExtra_ok L _ _ this.1 this.2
+
+/-- the sections behind the feature table -/
+def tailSecs (f : Fields) (p : Bytes) : List Section :=
+  (if f.contigAcc.isEmpty then [] else [secContig f]) ++ (if p.isEmpty then [] else [secOrigin p])
+
+theorem tailSecs_ok (f : Fields) (p : Bytes)
+    (hc : (if f.contigAcc.isEmpty then decide (f.contigHead = 0 ∧ f.contigTail = 0) else contigOk f) = true)
+    (hp : p.all Origin.isBase = true) (hlen : p.length < 10 ^ 9) :
+    ∀ x ∈ tailSecs f p, SecOK (locusLength f p) x := by
+  intro x hx
+  simp only [tailSecs, List.mem_append] at hx
+  rcases hx with hx | hx
+  · by_cases hca : f.contigAcc.isEmpty = true
+    · simp [hca] at hx
+    · simp only [hca, Bool.false_eq_true, if_false, List.mem_singleton] at hx hc
+      subst hx; exact secContig_ok _ f hc
+  · by_cases hpe : p.isEmpty = true
+    · simp [hpe] at hx
+    · simp only [hpe, Bool.false_eq_true, if_false, List.mem_singleton] at hx
+      subst hx
+      have : locusLength f p = (p.length : Int) := by simp [locusLength, hpe]
+      rw [this]
+      exact secOrigin_ok p (by simpa [List.all_eq_true] using hp) hlen
+
+/-- the text of the tail sections is what `GenBank.String` writes behind the table -/
+theorem tailSecs_text (f : Fields) (p : Bytes) (hlen : p.length < 10 ^ 9) :
+    (let contig := contigText f
+     (if contig.isEmpty then [] else bs "CONTIG      " ++ contig ++ [10])) ++
+    (if (p.length : Int) > 0 then bs "ORIGIN      \n" ++ Origin.originStream p else []) =
+    secsText (tailSecs f p) := by
+  have hc : (contigText f).isEmpty = f.contigAcc.isEmpty := by
+    unfold contigText
+    by_cases h : f.contigAcc.isEmpty = true
+    · simp [h]
+    · simp [h, bs]
+  have hp : ((p.length : Int) > 0) ↔ p.isEmpty = false := by
+    cases p <;> simp
+  by_cases h1 : f.contigAcc.isEmpty = true <;> by_cases h2 : p.isEmpty = true <;>
+    simp [tailSecs, secsText, secContig, secOrigin, hc, h1, h2, hp, List.append_assoc]
+  all_goals (intro hh; cases p <;> simp_all)
+
+end Gts.GenBank
